@@ -54,10 +54,11 @@ type Case struct {
 	Prepare       bool        `json:"prepare_stmt"`
 	DisableNested bool        `json:"disable_nested"`
 	SkipDefault   bool        `json:"skip_default_tx"`
-	ValueTx       bool        `json:"value_tx,omitempty"`   // with pool_shim: the wrapper's BeginTx returns its transaction by value
-	PoolShim      bool        `json:"pool_shim"`            // gorm is opened on a ConnPool wrapper (ConnPoolBeginner path) instead of *sql.DB
-	HandleErr     bool        `json:"handle_err,omitempty"` // the handle the program starts from already carries an error (an earlier failure)
-	ErrClass      string      `json:"err_class,omitempty"`  // injected driver errors wrap this well-known error (simdrv.ClassError)
+	RefuseCommit  bool        `json:"refuse_commit,omitempty"` // with pool_shim: the wrapper's Commit fails before reaching *sql.Tx
+	ValueTx       bool        `json:"value_tx,omitempty"`      // with pool_shim: the wrapper's BeginTx returns its transaction by value
+	PoolShim      bool        `json:"pool_shim"`               // gorm is opened on a ConnPool wrapper (ConnPoolBeginner path) instead of *sql.DB
+	HandleErr     bool        `json:"handle_err,omitempty"`    // the handle the program starts from already carries an error (an earlier failure)
+	ErrClass      string      `json:"err_class,omitempty"`     // injected driver errors wrap this well-known error (simdrv.ClassError)
 	MaxSites      int         `json:"max_sites"`
 	Pairs         bool        `json:"pairs"`
 	Pick          int64       `json:"pick_seed"`
@@ -195,6 +196,7 @@ func (g *gen) block(depth int) *Block {
 func (Prop) Gen(r *core.Rand, tier string) interface{} {
 	c := &Case{Prepare: r.Chance(35), DisableNested: r.Chance(25), SkipDefault: r.Chance(30), PoolShim: r.Chance(30), Pick: r.Int63()}
 	c.ValueTx = c.PoolShim && r.Chance(30)
+	c.RefuseCommit = c.PoolShim && r.Chance(25)
 	g := &gen{r: r, keys: []string{"base"}}
 	if r.Chance(75) {
 		c.Tree = g.block(1)
@@ -286,7 +288,8 @@ func (Prop) Shrink(ci interface{}) []interface{} {
 		func(v *Case) bool { x := v.DisableNested; v.DisableNested = false; return x },
 		func(v *Case) bool { x := v.SkipDefault; v.SkipDefault = false; return x },
 		func(v *Case) bool { x := v.ValueTx; v.ValueTx = false; return x },
-		func(v *Case) bool { x := v.PoolShim && !v.ValueTx; v.PoolShim = false; return x },
+		func(v *Case) bool { x := v.RefuseCommit; v.RefuseCommit = false; return x },
+		func(v *Case) bool { x := v.PoolShim && !v.ValueTx && !v.RefuseCommit; v.PoolShim = false; return x },
 		func(v *Case) bool { x := v.ErrClass != ""; v.ErrClass = ""; return x },
 		func(v *Case) bool { x := v.HandleErr; v.HandleErr = false; return x },
 	} {
@@ -846,7 +849,13 @@ func (r *run) block(db *gorm.DB, b *Block, depth int, path string) (err error) {
 			default:
 				r.pop(false, false)
 			}
-			if !panicked && bodyRan && bodyErr == nil {
+			if !panicked && bodyRan && bodyErr == nil && r.c.RefuseCommit && r.c.PoolShim && !commitSeen {
+				// the pool wrapper refused the Commit: nothing durable (the model dropped the
+				// block above), and the refusal is the caller's error
+				if err == nil {
+					r.fail("swallowed_commit_error", where+"|refused", "the pool's Commit failed but Transaction returned nil")
+				}
+			} else if !panicked && bodyRan && bodyErr == nil {
 				if !commitSeen {
 					r.fail("no_commit", where, "the outermost block returned nil but no COMMIT reached the driver")
 				} else if !commitOK && err == nil {
@@ -988,6 +997,9 @@ func (r *run) manual(db *gorm.DB) {
 	nEv := len(r.e.Drv.Events())
 	err := tx.Commit().Error
 	r.commitCalled, r.commitErr = true, err
+	if err != nil && r.c.RefuseCommit && r.c.PoolShim {
+		tx.Rollback() // what a caller does when Commit fails (usually a deferred Rollback)
+	}
 	ok, ackLost := false, false
 	for _, ev := range r.eventsSince(nEv) {
 		if ev.Kind == "commit" {
@@ -1038,6 +1050,7 @@ func (p Prop) exec(c *Case, faults []*ops.Fault) (*result, error) {
 		o.WrapPool = func(db *sql.DB, drv *simdrv.Sim) gorm.ConnPool {
 			pool = simpool.New(db, drv)
 			pool.ValueTx = c.ValueTx
+			pool.RefuseCommit = c.RefuseCommit
 			return pool
 		}
 	}
